@@ -74,7 +74,7 @@ def gen(ch, tier):
             for blk in item['blocks']:
                 if blk['type'] not in (6, 7, 10) or ch.coin('wide.known', 1, 2):
                     blk['wide'] = ch.choice('wide.blk', ([], [1], [2], [1, 2]))
-    return dict(scenario='bp_forward', bundles=bundles, skew_ms=ch.choice('skew', (0, 0, 5000, 86400000, -5000, -86400000)))
+    return dict(scenario='bp_forward', bundles=bundles, skew_ms=ch.choice('skew', (0, 0, 5000, 86400000, -5000, -86400000, -864000000)))
 
 
 def encode(item):
